@@ -16,7 +16,7 @@ from fractions import Fraction
 import numpy as np
 
 from .. import core
-from ..core import Check, MachineryError, run_tlc
+from ..core import pyf, Check, MachineryError, run_tlc
 
 
 def fr(p):
@@ -52,8 +52,8 @@ def run(tier, seed):
             ref = 4600.0
             t = ref + c["dt"]
             exp = float(fr(c["out"]))
-            ck.case(("radio", len(isos), c["dt"], c["m"], tuple(hl)), True)
-            for tag, got in (("jit", RM.isotope(t, float(c["m"]), f, cc, hl, q, ref)), ("py", RM.isotope.py_func(t, float(c["m"]), f, cc, hl, q, ref)),
+            ck.case(("radio", len(isos), c["dt"], c["m"], tuple(hl), f, cc), True)
+            for tag, got in (("jit", RM.isotope(t, float(c["m"]), f, cc, hl, q, ref)), ("py", pyf(RM.isotope)(t, float(c["m"]), f, cc, hl, q, ref)),
                              ("array", RM.isotope(np.array([t, t]), float(c["m"]), f, cc, hl, q, ref)[1])):
                 e = rel(float(got), exp)
                 worst["radio"] = max(worst.get("radio", 0), e)
@@ -74,7 +74,7 @@ def run(tier, seed):
             ra_c = ra / cube ** 3 if cube > 0 else 1.0e300
             exp = float(fr(c["factor"]))
             ck.case(("cool", str(c["alpha"]), cube, c["thick"], dTpos), True)
-            for tag, fn in (("jit", CM.convection), ("py", CM.convection.py_func)):
+            for tag, fn in (("jit", CM.convection), ("py", pyf(CM.convection))):
                 for arr in (False, True):
                     d = np.array([dT, dT]) if arr else dT
                     e_ = np.array([eta, eta]) if arr else eta
@@ -96,7 +96,7 @@ def run(tier, seed):
             phi, crit, width = c["phi"] / 100.0, c["crit"] / 100.0, c["width"] / 100.0
             T, pv, lv, ps, sol, liq, ls = 1700.0, 1.0e20, 0.2, 6.0e10, 1600.0, 2000.0, 1.0e-5
             ck.case(("melt", c["phi"], c["crit"], c["width"]), True)
-            for tag, fn in (("jit", MM.henning), ("py", MM.henning.py_func)):
+            for tag, fn in (("jit", MM.henning), ("py", pyf(MM.henning))):
                 for arr in (False, True):
                     ph = np.array([phi, phi]) if arr else phi
                     v, s = fn(ph, T, pv, lv, ps, sol, liq, ls, crit, width)
